@@ -824,8 +824,14 @@ impl<'a> G<'a> {
             match t {
                 T::I => {
                     let a = self.eff(&T::I, sc, depth + 2);
-                    let b = self.eff(&T::I, sc, depth + 2);
                     let op = *self.rng.pick(&[Op::Add, Op::Sub, Op::Mul]);
+                    if self.rng.pct(25) {
+                        // the other operand is a neutral or absorbing literal: the effects of the
+                        // operand still have to happen
+                        let c = E::Lit(*self.rng.pick(&[0, 0, 1, -1, 2]));
+                        return if self.rng.pct(50) { E::Op(Box::new(a), op, Box::new(c)) } else { E::Op(Box::new(c), op, Box::new(a)) };
+                    }
+                    let b = self.eff(&T::I, sc, depth + 2);
                     return E::Op(Box::new(a), op, Box::new(b));
                 }
                 T::D(n, args) if !self.is_codata(t) => {
@@ -1227,7 +1233,14 @@ fn show(e: &E, names: &dyn Fn(usize) -> String, sigs: &[DefSig], ind: usize) -> 
                 Op::Div => "/",
                 Op::Rem => "%",
             };
-            format!("(({}) {o} ({}))", s(a), s(b))
+            // simple operands (non-negative literals, variables, calls) are written without
+            // parentheses half of the time: `x * 0` and `(x) * (0)` are different syntax trees
+            let operand = |e: &E| -> String {
+                let t = s(e);
+                let simple = matches!(e, E::Lit(v) if *v >= 0) || matches!(e, E::Var(_) | E::Call(..));
+                if simple && t.bytes().map(|b| b as usize).sum::<usize>() % 2 == 0 { t } else { format!("({t})") }
+            };
+            format!("({} {o} {})", operand(a), operand(b))
         }
         E::If(sort, c, snd, a, b) => {
             let ops = ["==", "!=", "<", "<=", ">", ">="];
